@@ -144,6 +144,9 @@ class BehavioralRTLIRTypeCheckVisitorL3( BehavioralRTLIRTypeCheckVisitorL2 ):
       if v_dtype != field:
         if is_field_reinterpretable:
           target_nbits = field.get_length()
+          if isinstance( v_dtype, rdt.Vector ) and v_dtype.get_length() > target_nbits:
+            raise PyMTLTypeError( s.blk, node.ast,
+              f"argument #{idx+1} ( field {name} ) requires {v_dtype.get_length()} bits but the field has only {target_nbits}!" )
           s.enforcer.enter( s.blk, rt.NetWire(rdt.Vector(target_nbits)), value )
         else:
           raise PyMTLTypeError( s.blk, node.ast,
